@@ -1,3 +1,3 @@
 REGISTRY = {
-    'C01': 'c01', 'C04': 'c04', 'C06': 'cls', 'C07': 'cls', 'C11': 'api', 'C12': 'api', 'C13': 'api', 'C14': 'api', 'C15': 'numeric', 'C16': 'numeric', 'C17': 'lang', 'C18': 'lang', 'C19': 'lang', 'C02': 'graph', 'C08': 'graph', 'C03': 'graph', 'C05': 'graph', 'C09': 'graph', 'C10': 'graph', 'C20': 'graph',
+    'C01': 'c01', 'C04': 'c04', 'C06': 'cls', 'C07': 'cls', 'C11': 'api', 'C12': 'api', 'C13': 'api', 'C14': 'api', 'C15': 'numeric', 'C16': 'numeric', 'C17': 'lang', 'C18': 'lang', 'C19': 'lang', 'C02': 'graph', 'C08': 'graph', 'C03': 'graph', 'C05': 'graph', 'C09': 'graph', 'C10': 'graph', 'C20': 'c20',
 }
